@@ -44,6 +44,7 @@ def run(cx, chk):
         c11.r3r4(cx, Relabel(chk, {"C11.R4": "C10.R7"}, keep=lambda key: key.split(":")[-1] == "lt" or key == "lt"), cfg, F)
         composite.clone_bounds(cx, chk, cfg, F, "C10.R7", only=("SegmentedCache", "WTinyLFUCache"))
         composite.builder_setters(cx, chk, cfg, F, "C10.R7", only=("SegmentedCacheBuilder", "WTinyLFUCacheBuilder"))
+        composite.role_wiring(cx, chk, cfg, F, "C10.R7")
         accessor_bounds(cx, chk, cfg, F)
         composite.policy_hygiene(cx, chk, cfg, F, "WTinyLFUCache", "C10.R5", "C10.R6")
         put(cx, chk, cfg, F)
